@@ -16,7 +16,7 @@ TOL_SPEC = {"se": 1, "se_ar2": 1, "se_a2r4": 1, "se_erf_rinv": 1, "se_ap": 1, "s
             "se_ap2r2": 1, "se_lapl": 1, "se_r2": None, "k": 1, "dot_grad": 1, "dot_rvec": None}
 EXCLUDE_KNOWN = {"sdmx_1d_definition"}     # regions of open known findings (generated cases avoid them, counted)
 TOL = {"definition_panel_median": 4e-2, "definition_worst_point_rel_to_max": 0.25, "fast_interpolators_vs_train_gen": 2e-3, "gaussian_vs_spline_plan": 0.2, "sdmx_fast_vs_slow": 1e-6,
-       "sdmx_definition": "4e-2, judged only where two refinements of the auxiliary ladder agree within a quarter of that"}
+       "sdmx_definition": "max(4e-2, 2e-2 + 4 x spread), judged only where two refinements of the auxiliary ladder agree within 1e-2 (spread)"}
 
 
 # ------------------------------------------------------------------------------------------------
@@ -287,6 +287,7 @@ def nldf_fast_vs_reference_path(case, ctx):
     ctx.event("interp=%s/%s" % (case["interp"], case["plan_type"]))
     if np.max(np.abs(ref)) > 1e-6:
         ctx.nontrivial([nspec["version"], nspec["level"], nspec["rho_mult"], labs, case["plan_type"], case["interp"]])
+    refined = None
     for k, lab in enumerate(labs):
         sc = float(np.max(np.abs(ref[k]))) + 1e-300
         if TOL_SPEC[lab] is None:
@@ -306,7 +307,20 @@ def nldf_fast_vs_reference_path(case, ctx):
             # their (different) ladders, so they need not agree (measured up to 160 % for a Li atom); counted only
             ctx.event("plan_comparison_skipped_theta_vanishes_in_tail")
             continue
-        ctx.check(e2 <= tol2, ("gaussian_vs_spline_plan", lab), err=e2, tol=tol2, version=nspec["version"])
+        if e2 > 0.25 * tol2:
+            # Two different auxiliary expansions of one integral differ by their truncation errors, for which 0.2 is a
+            # sampled figure, not a bound (0.166 in the quick tier, 0.21 after a change of the package default).  What
+            # separates truncation from a defect of one plan type is refinement: with a finer ladder (ratio 1.35, lower
+            # end divided by 16) the difference must fall to 60 % or below a quarter of the figure.
+            if refined is None:
+                kwf = dict(aux_lambd=1.35, alpha_min=float(settings.theta_params[0]) / 4096.0)
+                refined = (np.asarray(_nldf_desc_getter(mol, grids, dm, settings, inner_grids=grids, plan_type=case["plan_type"], **kwf))[:, idx],
+                           np.asarray(_nldf_desc_getter(mol, grids, dm, settings, inner_grids=grids, plan_type=other, **kwf))[:, idx])
+                ctx.event("plan_comparison_rejudged_on_finer_ladder")
+            e2f = float(np.max(np.abs(refined[1][k] - refined[0][k]))) / (float(np.max(np.abs(refined[0][k]))) + 1e-300)
+            ctx.measure("plan_refined/%s" % lab, e2f / max(0.25 * tol2, 0.6 * e2))
+            ctx.check(e2f <= max(0.25 * tol2, 0.6 * e2), ("gaussian_vs_spline_plan", lab), err=e2, err_refined=e2f, tol=tol2,
+                      version=nspec["version"])
 
 
 # ------------------------------------------------------------------------------------------------
@@ -506,9 +520,12 @@ def sdmx_fast_vs_slow_and_definition(case, ctx):
                     sc = float(np.max(np.abs(ref[k]))) + 1e-300
                     err = float(np.max(np.abs(f[s, k] - ref[k]))) / sc
                 err_def = float(np.max(np.abs(fdef[s, k] - ref[k]))) / sc
-                tol_def = 4e-2
                 spread = float(np.max(np.abs(fr[s, k] - fr2[s, k]))) / sc
-                if spread > 0.25 * tol_def:
+                # error budget: the reference quadrature agrees with its next level to 1.3e-2 (2e-2 allowed), and the
+                # refined ladder is still moving by `spread` between its last two refinements (4 x spread allowed for what
+                # is left); never below 4e-2, at most 6e-2 because cases with spread > 1e-2 are not judged
+                tol_def = max(4e-2, 2e-2 + 4.0 * spread)
+                if spread > 1e-2:
                     ctx.unresolved_fd("ladder_unresolved:" + lab)
                     ctx.event("sdmx_definition_error:%s:%s:unresolved" % (case["sdmx"]["cls"], lab))
                     continue
